@@ -67,7 +67,8 @@ def gen():
     out.append("(* error InvalidFormat(i) iff  cols.len() CMP N *)\nDefinition charprop_cols_guard : guard := mkG CastNone %s (OConst (%s)%%Z).\n" % (CMP[m[0]], m[1]))
     S.get("charprop order of checks", lambda: positions(b, [
         ("column count check", r"cols\.len\(\)"),
-        ("category parse -> InvalidCategoryType(i, ..)", r"let\s+category_type:\s*CategoryType\s*=\s*match\s+cols\[0\]\.parse\(\)\s*\{\s*Ok\(t\)\s*=>\s*t,\s*Err\(_\)\s*=>\s*\{\s*return\s+Err\(SudachiError::InvalidCharacterCategory\(\s*CharacterCategoryError::InvalidCategoryType\(i,"),
+        # `match parse() { Ok(t) => t, Err(_) => return Err(E) }`  or  `parse().map_err(|_| E)?`
+        ("category parse -> InvalidCategoryType(i, ..)", r"let\s+category_type:\s*CategoryType\s*=\s*(?:match\s+cols\[0\]\.parse\(\)\s*\{\s*Ok\((\w+)\)\s*=>\s*\1,\s*Err\(_\)\s*=>\s*\{\s*return\s+Err\(|cols\[0\]\.parse\(\)\.map_err\(\|_\|\s*\{?\s*)SudachiError::InvalidCharacterCategory\(\s*CharacterCategoryError::InvalidCategoryType\(\s*i,"),
         ("duplicate check -> MultipleTypeDefinition(i, ..)", r"if\s+\w+\.contains_key\(&category_type\)\s*\{\s*return\s+Err\(SudachiError::InvalidCharacterCategory\(\s*CharacterCategoryError::MultipleTypeDefinition\(i,"),
         ("insert", r"\w+\.insert\(\s*category_type,\s*CategoryInfo\s*\{"),
     ], "read_character_property"), None)
@@ -90,7 +91,8 @@ def gen():
         return ml.group(1)
     out.append("Definition charprop_length_ty : ity := %s.\n" % ITY[S.get("charprop length type", lenty, "u32")])
     # ------------------------------------------------------------ read_oov
-    b = F.fn_body(t, "read_oov", REL)
+    # checks moved into a private helper of the file are read where the helper is called
+    b = F.inline_calls(t, F.fn_body(t, "read_oov", REL))
     S.get("unk loop", lambda: must(re.search(r"for\s+\(i,\s*\w+\)\s+in\s+reader\.lines\(\)\.enumerate\(\)", b), "no longer `for (i, line) in reader.lines().enumerate()`"), None)
     S.get("unk trim", lambda: must(re.search(r"let\s+\w+\s*=\s*\w+\?;\s*let\s+\w+\s*=\s*\w+\.trim\(\);", b), "`let line = line?; let line = line.trim();` not found"), None)
     m = S.get("unk skip rule", lambda: must(re.search(r"if\s+\w+\.is_empty\(\)\s*\|\|\s*\w+\.chars\(\)\.next\(\)\.unwrap\(\)\s*==\s*'(.)'\s*\{\s*continue;", b), "skip rule (empty / comment) not recognised").groups(), ("#",))
@@ -113,7 +115,12 @@ def gen():
     ], "read_oov"), None)
     m = S.get("unk POS slice", lambda: must(re.search(r"handle_user_pos\(&cols\[([0-9]+)\.\.([0-9]+)\]", b), "POS slice not recognised").groups(), ("4", "10"))
     out.append("(* POS = cols[from..to] *)\nDefinition unk_pos_from : nat := %s.\nDefinition unk_pos_to : nat := %s.\n" % (m[0], m[1]))
-    S.get("unk grouping", lambda: must(re.search(r"None\s*=>\s*\{\s*\w+\.insert\(category_type,\s*vec!\[\w+\]\);\s*\}\s*Some\(\w+\)\s*=>\s*\{\s*\w+\.push\(\w+\);\s*\}", b), "templates are no longer appended to the list of their category"), None)
+    # `match m.get_mut(&c) { None => { m.insert(c, vec![x]); } Some(l) => { l.push(x); } }`  or
+    # `if let Some(l) = m.get_mut(&c) { l.push(x); } else { m.insert(c, vec![x]); }`
+    S.get("unk grouping", lambda: must(
+        re.search(r"match\s+(\w+)\.get_mut\(&category_type\)\s*\{\s*None\s*=>\s*\{\s*\1\.insert\(category_type,\s*vec!\[(\w+)\]\);\s*\}\s*Some\((\w+)\)\s*=>\s*\{\s*\3\.push\(\2\);\s*\}", b)
+        or re.search(r"if\s+let\s+Some\((\w+)\)\s*=\s*(\w+)\.get_mut\(&category_type\)\s*\{\s*\1\.push\((\w+)\);\s*\}\s*else\s*\{\s*\2\.insert\(category_type,\s*vec!\[\3\]\);\s*\}", b),
+        "templates are no longer appended to the list of their category"), None)
     # both readers are fed from files opened in set_up, charDef first
     sb = F.fn_body(t, "set_up", REL)
     S.get("set_up", lambda: positions(sb, [
